@@ -67,6 +67,10 @@ def RegGrid.ndim (g : RegGrid) : Nat := g.dims.length
 def RegGrid.scaled (g : RegGrid) (c : Rat) : RegGrid :=
   { delta := g.delta.map (· * c), dims := g.dims, zero := g.zero.map (· * c) }
 
+/-- `grid.scaled([c₀, c₁, …])` with one factor per axis (`focal_grid.scaled([1, -1])` mirrors the y axis). -/
+def RegGrid.scaledAxes (g : RegGrid) (c : List Rat) : RegGrid :=
+  { delta := (g.delta.zip c).map fun (d, c) => d * c, dims := g.dims, zero := (g.zero.zip c).map fun (z, c) => z * c }
+
 /-- The uv grid in units of 2π per axis: `focal.scaled(1/(λf))`. -/
 def uvGridTurns (s : Setup) (focal : RegGrid) : RegGrid := focal.scaled (uvScaleTurns s)
 
